@@ -4,7 +4,7 @@
   FlowReader; every loaded flow must be a valid current flow, key request/response fields are
   compared with an independent decoding of the old record, and re-saving + re-loading is a fixpoint;
 * synthetic old files: flows of the C36 grammar (base flow of every type, every single field
-  deviation in the thorough tier) are converted *down* to every historical format version by
+  deviation; in the thorough tier also every pair of interacting field deviations) are converted *down* to every historical format version by
   down-converters written here (the inverse of each documented step of compat.py, dropping what
   the old shape could not hold), written as tnetstrings and loaded with the real FlowReader
   (=> compat.migrate_flow + Flow.from_state).  Fields that were representable in that version
@@ -52,6 +52,9 @@ def vkey(v):
 
 
 ALL_VERSIONS = sorted(TUPLE_VERSIONS + INT_VERSIONS, key=vkey)
+# quick tier, non-core deviations only: the oldest tuple and integer versions (the whole converter chain runs), both sides of
+# the connection rewrite (9/10), the last version with separate websocket records (11), the first with udp/dns (17), the newest old one
+QUICK_VERSIONS = [(1, 0), 4, 9, 10, 11, 17, 20]
 
 
 def types_at(v):
@@ -454,11 +457,11 @@ def evaluate(ftype, devnames, target):
 _BASE_SYMPTOMS: dict = {}
 
 
-def base_symptoms(ftype, target):
-    """what already fails for the default flow of that type at that version (the minimal trigger)"""
-    k = (ftype, target)
+def symptoms_of(ftype, devnames, target):
+    """what already fails for a smaller flow (default, or one deviation) of that type at that version"""
+    k = (ftype, tuple(devnames), target)
     if k not in _BASE_SYMPTOMS:
-        res = evaluate(ftype, [], target)
+        res = evaluate(ftype, list(devnames), target)
         _BASE_SYMPTOMS[k] = {(v.clause, v.symptom) for v in res[0] if v.symptom} if res else set()
     return _BASE_SYMPTOMS[k]
 
@@ -473,17 +476,22 @@ def synth_case(case, t: Tally):
         return
     verdicts, outcome = res
     t.outcome(outcome)
+    tab = G.dev_table(ftype)
     for v in verdicts:
         if v.symptom is None:
             t.ok(v.clause)
             continue
         feats = {"ftype": ftype, "from_version": vname(target), "symptom": v.symptom}
+        # minimal trigger: the default flow, else one of the deviations alone, else the combination
         if devnames:
-            if (v.clause, v.symptom) in base_symptoms(ftype, target):
+            if (v.clause, v.symptom) in symptoms_of(ftype, [], target):
                 t.note("violation already shown by the default flow of that type and version")
             else:
-                d = G.dev_table(ftype)[devnames[0]]
-                feats["field"], feats["kind"] = d.field, d.kind
+                single = [n for n in devnames if len(devnames) == 1 or (v.clause, v.symptom) in symptoms_of(ftype, [n], target)]
+                if len(devnames) > 1 and single:
+                    t.note("pair violation explained by a single deviation")
+                for i, n in enumerate(single[:1] or devnames):
+                    feats["field" if i == 0 else "field2"], feats["kind" if i == 0 else "kind2"] = tab[n].field, tab[n].kind
         t.bad(v.clause, feats, case, v.expected, v.observed)
     t.case(case if devnames and len(t.samples) < 3 else None, nontrivial=True, key=case)
 
@@ -691,9 +699,13 @@ def run(ctx):
     cases = [{"k": "shipped", "file": n} for n in shipped_files()]
     for ft in G.FTYPES:
         devs = G.deviations(ft)
-        pool = [[]] + [[d.name] for d in devs if (thorough or d.core) and d.field != "backup"]
-        for dn in pool:
-            for v in versions:
+        devs = [d for d in devs if d.field != "backup"]
+        core = [d for d in devs if d.core]
+        pool = [([], versions)] + [([d.name], versions if (thorough or d.core) else QUICK_VERSIONS) for d in devs]
+        if thorough:
+            pool += [([a.name, b.name], versions) for i, a in enumerate(core) for b in core[i + 1:] if not G.conflict(a, b)]
+        for dn, vs in pool:
+            for v in vs:
                 if ft in types_at(v):
                     cases.append({"k": "synth", "t": ft, "d": dn, "v": list(v) if isinstance(v, tuple) else v})
     nsynth = len(cases) - len(shipped_files())
@@ -711,7 +723,8 @@ def run(ctx):
         len(shipped_files()), nsynth, len(versions), ncur, len(cases) - nsynth - ncur - len(shipped_files())))
     ctx.bounds = {
         "shipped_dumps": shipped_files(), "versions": [".".join(map(str, v)) if isinstance(v, tuple) else v for v in versions],
-        "flow_types": G.FTYPES, "deviations": "every single field deviation of the C36 grammar" if thorough else "default flows + core (interacting) field deviations",
+        "flow_types": G.FTYPES, "deviations": ("every single field deviation of the C36 grammar at every version + every pair of core (interacting) field deviations" if thorough else
+                       "default flows and core field deviations at every version; every other single field deviation at versions 1.0, 4, 9, 10, 11, 17, 20"),
         "future_versions": [str(v) for v in FUTURE], "future_shapes": FUTURE_SHAPES,
     }
     G.run_cases(one, cases, ctx.tally, block=32)
